@@ -1,1 +1,37 @@
 package pstoremem
+
+// Reproduction for C09 obligation pstoremem.(*peerAddrs).Update/post#4@ret#0: an address whose TTL goes from the
+// connected class to a finite class is never pushed into the expiry heap, so gc never collects it and the peer
+// stays listed forever (run with go test -overlay; see run.sh).
+
+import (
+	"testing"
+	"time"
+
+	"github.com/libp2p/go-libp2p/core/peer"
+	"github.com/libp2p/go-libp2p/core/peerstore"
+	ma "github.com/multiformats/go-multiaddr"
+)
+
+type c09clock struct{ t time.Time }
+
+func (c *c09clock) Now() time.Time { return c.t }
+
+func TestC09UpdateRepro(t *testing.T) {
+	clk := &c09clock{t: time.Unix(1000, 0)}
+	ab := NewAddrBook(WithClock(clk))
+	defer ab.Close()
+	p := peer.ID("peer-1")
+	a := ma.StringCast("/ip4/1.2.3.4/tcp/1")
+	ab.SetAddrs(p, []ma.Multiaddr{a}, peerstore.ConnectedAddrTTL)
+	ab.SetAddrs(p, []ma.Multiaddr{a}, time.Second) // connected -> finite TTL
+	ea, _ := ab.addrs.FindAddr(p, a)
+	t.Logf("after SetAddrs(ConnectedAddrTTL); SetAddrs(1s): heapIndex=%d connected=%v heapLen=%d", ea.heapIndex, ea.IsConnected(), len(ab.addrs.expiringHeap))
+	clk.t = clk.t.Add(time.Hour)
+	ab.gc()
+	peers := ab.PeersWithAddrs()
+	t.Logf("one hour later, after gc: Addrs=%v PeersWithAddrs=%v stored=%d", ab.Addrs(p), peers, len(ab.addrs.Addrs[p]))
+	if len(peers) != 0 || len(ab.addrs.Addrs[p]) != 0 {
+		t.Fatalf("C09 VIOLATION CONFIRMED: expired address not collected (heapIndex=%d, TTL=%v): peer still listed %v", ea.heapIndex, ea.TTL, peers)
+	}
+}
